@@ -22,7 +22,16 @@ import (
 // RNG is splitmix64; every random choice of a run derives from one seed.
 type RNG struct{ s uint64 }
 
-func NewRNG(seed uint64) *RNG { return &RNG{s: seed*0x9E3779B97F4A7C15 + 0x1234567} }
+// NewRNG scrambles the seed so that neighbouring seeds give unrelated streams
+// (the splitmix64 state advances by a constant, so seeds n and n+1 must not map to
+// states that differ by that constant).
+func NewRNG(seed uint64) *RNG {
+	z := seed + 0x6A09E667F3BCC909
+	z = (z ^ (z >> 30)) * 0xBF58476D1CE4E5B9
+	z = (z ^ (z >> 27)) * 0x94D049BB133111EB
+	z ^= z >> 31
+	return &RNG{s: z}
+}
 
 func (r *RNG) Uint64() uint64 {
 	r.s += 0x9E3779B97F4A7C15
